@@ -243,6 +243,12 @@ C16 = [
 
 CALL = 'pharmpy/workflows/dispatchers/local_dask/call.py'
 C17 += [
+    ('context-test-uses-startswith', WF,
+     "        if parameters and parameters[0] == 'context':",
+     "        if parameters and parameters[0].startswith('context'):", None),
+    ('workflow-name-dropped-by-builder-copy', WF,
+     "            self._g = workflow._g.copy()\n            self.name = workflow.name",
+     "            self._g = workflow._g.copy()\n            self.name = name", None),
     ('call-workflow-without-context', CALL,
      "    wb = WorkflowBuilder(wf)\n    insert_context(wb, ctx)\n    wf = Workflow(wb)",
      "    wb = WorkflowBuilder(wf)\n    wf = Workflow(wb)", None),
